@@ -34,10 +34,7 @@ func checkReuse(c reuseCase) error {
 	}
 	pub := ref.PublicOf(priv)
 	k, keyOct := keyRR("signer.example.", c.Alg, pub)
-	tag := ref.KeyTag(ref.DNSKEYRdata(k.Flags, 3, c.Alg, keyOct))
-	if tag == 0 {
-		tag = 1
-	}
+	tag := keyTagOf(k.Flags, c.Alg, keyOct) // whatever its value (a key whose tag is 0 is replaced by the generator while sig0-keytag-zero-refused is live)
 	signerL, _ := labelsOf("signer.example.")
 	now := time.Now().Unix()
 	sig := &dns.SIG{}
@@ -77,6 +74,20 @@ func checkReuse(c reuseCase) error {
 func genReuse(t *rapid.T) reuseCase {
 	c := reuseCase{Alg: rapid.SampledFrom(sigAlgs).Draw(t, "alg"), KeySlot: rapid.IntRange(0, ref.RSAPoolSize()-1).Draw(t, "slot"),
 		KeySeed: rapid.SliceOfN(rapid.Byte(), 1, 40).Draw(t, "seed")}
+	if pbt.Known(findAlg7) && c.Alg == ref.AlgRSASHA1NSEC3 {
+		pbt.Excluded(findAlg7)
+		c.Alg = ref.AlgRSASHA1
+	}
+	if pbt.Known(findTag0) {
+		for i := 0; i < 4; i++ {
+			if tag, ok := caseKeyTag(sigCase{Alg: c.Alg, KeySlot: c.KeySlot, KeySeed: c.KeySeed}); !ok || tag != 0 {
+				break
+			}
+			pbt.Excluded(findTag0)
+			c.KeySeed = append(append([]byte(nil), c.KeySeed...), byte(i))
+			c.KeySlot = (c.KeySlot + 1) % ref.RSAPoolSize()
+		}
+	}
 	n := rapid.IntRange(1, 4).Draw(t, "nmsgs")
 	if pbt.Known(findReuse) {
 		pbt.Excluded(findReuse)
